@@ -99,3 +99,17 @@ package quic
 //@   ghostvar got []byte = nil
 //@   after recv readC: got = v.msg
 //@   ensures imp(result1 == nil, result0 == got)
+
+// ---------------------------------------------------------------- C17: QUIC binary carrier
+// The binary form is accepted only when it ends exactly on an entry boundary: the reader
+// returns a map without error only after the key-length read of a NEW entry hit a clean EOF;
+// a message cut anywhere inside an entry (after a key length, inside a key, before or inside a
+// value) is an error and never a shorter parameter set. Empty and duplicated keys are errors.
+//@ func readKeyValues
+//@   props C17
+//@   ghostvar reads int = 0
+//@   ghostvar lastErr error = nil
+//@   after call io.ReadFull: reads = reads + 1
+//@   after call io.ReadFull: lastErr = res1
+//@   ensures imp(result1 == nil, reads % 4 == 1 && lastErr == io.EOF)
+//@   loop 1 invariant reads % 4 == 0
